@@ -31,13 +31,13 @@ for n in sorted(os.listdir(os.path.join(wt, "seed"))):
         pid = m.group(0)
     git("checkout", "--", "han")
     meta = {"property": pid, "seed": os.environ.get("SEED_PREFIX", "") + n, "source": "independent sub-agent given only the property text and a scratch worktree"}
-    r0 = sh(f"cd {wt} && timeout 120 /venv/bin/python seed/{n}/demo.py", env=env)
+    r0 = sh(f"cd {wt} && timeout 420 /venv/bin/python seed/{n}/demo.py", env=env)
     meta["demo_on_clean_head_exit"] = r0.returncode
     a = git("apply", patch)
     meta["applies"] = a.returncode == 0
     t = sh(f"cd {wt} && timeout 600 /venv/bin/python -m pytest -q -p no:cacheprovider 2>&1 | tail -1", env=env)
     meta["repo_tests_with_patch"] = t.stdout.strip()
-    r1 = sh(f"cd {wt} && timeout 120 /venv/bin/python seed/{n}/demo.py", env=env)
+    r1 = sh(f"cd {wt} && timeout 420 /venv/bin/python seed/{n}/demo.py", env=env)
     meta["demo_with_patch_exit"] = r1.returncode
     meta["demo_with_patch_output"] = (r1.stdout + r1.stderr)[-600:]
     confirmed = meta["applies"] and "124 passed" in meta["repo_tests_with_patch"] and r0.returncode == 0 and r1.returncode == 1
